@@ -125,3 +125,54 @@ def update_replaces_a_node_whose_type_changed(c: Cache, path: str, oid: opt_str,
         check(iff(len(so) == 1, truthy(oid)), "the id is assigned exactly when one was passed")
         if truthy(oid):
             check(so[0].args[0] is found and so[0].args[1] == oid, "to that node, that id")
+
+
+@lemma(props=["C19"], configs="none", raises=["AssertionError"],
+       stubs={"cloudsync.hierarchical_cache:HierarchicalCache._get_node": {"results": ["node?"]},
+              "cloudsync.hierarchical_cache:HierarchicalCache._set_oid": {"results": ["None"]},
+              "cloudsync.hierarchical_cache:HierarchicalCache._HierarchicalCache__make_node": {"results": ["node"]}})
+def set_oid_labels_the_node_at_the_path_or_makes_one(c: Cache, path: str, oid: str):
+    """L19.6: set_oid(path, oid, type): the node at the path, if there is one, is given the id through _set_oid (and no node
+    is made); otherwise one node of the given type is made at that path with that id; empty arguments are refused"""
+    c.set_oid(path, oid, FILE)
+    g = calls("_get_node")
+    so = calls("_set_oid")
+    m = calls("_HierarchicalCache__make_node")
+    check(len(path) > 0 and len(oid) > 0, "empty path or id is refused (assertion)")
+    check(len(g) == 1 and g[0].kw_path == path, "one lookup, by the path given")
+    if g[0].result is None:
+        check(len(so) == 0 and len(m) == 1 and m[0].args[0] == FILE and m[0].args[1] == path and m[0].args[2] == oid, "no node there: one node of that type is made at the path with the id")
+    else:
+        check(len(m) == 0 and len(so) == 1 and so[0].args[0] is g[0].result and so[0].args[1] == oid, "the node found is given the id")
+
+
+@lemma(props=["C19"], configs="none",
+       stubs={"cloudsync.hierarchical_cache:Node.full_path": {"results": ["str"]}})
+def get_path_resolves_the_node_the_id_map_binds(c: Cache, oid: str, other: str):
+    """L19.7: the id->path view reads the structure the mutators maintain: get_path(id) is the full path of exactly the node
+    the id map binds under that id, nothing if the id is unbound; no binding changes"""
+    before = id_map(c, other)
+    bound = id_map(c, oid)
+    gp = c.get_path(oid)
+    fp = calls("full_path")
+    if bound is None:
+        check(gp is None and len(fp) == 0, "an unbound id has no path")
+    else:
+        check(len(fp) == 1 and gp == fp[0].result, "a bound id resolves to its node's full path")
+    check(id_map(c, other) is before and id_map(c, oid) is bound, "get_path changes no binding")
+
+
+@lemma(props=["C19"], configs="none",
+       stubs={"cloudsync.hierarchical_cache:HierarchicalCache._get_node": {"results": ["node?"]}})
+def get_oid_reports_the_resolved_nodes_id(c: Cache, path: str, other: str):
+    """L19.8: the path->id view: get_oid(path) is the id carried by the node the path lookup resolves, nothing if it
+    resolves nothing; no binding changes"""
+    before = id_map(c, other)
+    go = c.get_oid(path)
+    g = calls("_get_node")
+    check(len(g) == 1 and g[0].kw_path == path, "one lookup by the path given")
+    if g[0].result is None:
+        check(go is None, "no node: no id")
+    else:
+        check(go is g[0].result.oid or go == g[0].result.oid, "the id is the one the resolved node carries")
+    check(id_map(c, other) is before, "get_oid changes no binding")
